@@ -467,6 +467,7 @@ class H2ConnModel:
         return None
 
     def m_close_connection(self, interp, obj, args, kwargs, fr):
+        interp.unit_call_requires("H2Connection.close_connection", fr)
         # SEND_GOAWAY is accepted in every connection state
         interp.traces.setdefault("h2", []).append(("close_connection",))
         obj.fields["conn_closed"] = z3.BoolVal(True)
